@@ -58,13 +58,15 @@ func init() {
 			for _, n := range []string{"(*effctl.T).BadObserver", "(effctl.T).BadObserverSlice", "(effctl.T).BadObserverViaInterface", "(effctl.T).GoodObserver"} {
 				noWrites(ctl, ro, ctl.Fn(n), []int{0}, "the shared receiver")
 			}
+			mv := &RuleResult{Rule: "READONLY"}
+			noWrites(ctl, mv, ctl.Fn("(*effctl.T).BadObserverMethodValue"), []int{0}, "the shared receiver")
 			cl := &RuleResult{Rule: "CLOSE"}
 			ruleClose(ctl, cl, "effctl.BadCloseMissing", "c")
 			ruleClose(ctl, cl, "effctl.GoodClose", "c")
 			cl2 := &RuleResult{Rule: "CLOSE"}
 			ruleClose(ctl, cl2, "effctl.BadSendAfterClose", "c")
 			rt := ruleRetain(ctl, []string{"effctl.NewKeeper", "effctl.NewGoodKeeper", "effctl.BadUnlistedKeeper"}, []retainSpec{{ctor: "effctl.NewKeeper", param: "k", typ: "effctl.T", field: "kept"}})
-			return []*RuleResult{ruleGlobal(ctl), ruleNoShare(ctl), ro, cl, cl2, rt}
+			return []*RuleResult{ruleGlobal(ctl), ruleNoShare(ctl), ro, mv, cl, cl2, rt}
 		},
 	})
 }
